@@ -93,7 +93,7 @@ var rests = []string{"alert(1)", "x", "//x", "/etc/passwd", "a.b", "%0aalert(1)"
 var named = map[byte][]string{':': {"&colon;"}, '(': {"&lpar;"}, ')': {"&rpar;"}, '/': {"&sol;"}, ',': {"&comma;"}, ';': {"&semi;"}, '+': {"&plus;"}}
 
 func spell(t *rapid.T, ch byte, allowLiteralWS bool) string {
-	k := rapid.IntRange(0, 19).Draw(t, "sp")
+	k := rapid.IntRange(0, 22).Draw(t, "sp")
 	switch {
 	case k <= 9:
 		return string(ch)
@@ -125,12 +125,21 @@ func spell(t *rapid.T, ch byte, allowLiteralWS bool) string {
 		return fmt.Sprintf("&#X%04X;", ch)
 	case k == 17:
 		return fmt.Sprintf("%%%02x", ch)
+	case k == 20:
+		return fmt.Sprintf("&amp;#%d;", ch) // doubly encoded: must stay text
+	case k == 21:
+		return fmt.Sprintf("&#38;#x%x;", ch)
+	case k == 22:
+		if n, ok := named[ch]; ok {
+			return "&amp;" + n[0][1:]
+		}
+		return string(ch)
 	default:
 		return string(ch)
 	}
 }
 
-var wsRefs = []string{"&Tab;", "&NewLine;", "&#9;", "&#10;", "&#13;", "&#x9;", "&#xA;", "&#32;", "&#1;", "&#31;", "&#0;", "&nbsp;", "&#160;", "&#8203;", "&ZeroWidthSpace;", " ", "​", "\x01", "\x1f", "\x7f", "\\\t", "%09", "%0a", "%20", "\\ "}
+var wsRefs = []string{"&amp;Tab;", "&amp;NewLine;", "&amp;#9;", "&#38;#10;", "&amp;#1;", "&#x26;Tab;", "\\&Tab;", "&amp;amp;Tab;", "&Tab;", "&NewLine;", "&#9;", "&#10;", "&#13;", "&#x9;", "&#xA;", "&#32;", "&#1;", "&#31;", "&#0;", "&nbsp;", "&#160;", "&#8203;", "&ZeroWidthSpace;", " ", "​", "\x01", "\x1f", "\x7f", "\\\t", "%09", "%0a", "%20", "\\ "}
 var wsLiteral = []string{" ", "\t", "  "}
 
 func buildURL(t *rapid.T, angle bool) (string, bool) {
